@@ -206,6 +206,53 @@ fn main() {
         ctx.universe_isolated(&name, total, 5.0, 1024, body);
     }
 
+    // a circle carrying a finish / clap / whistle directly followed by a repeat slider (span lengths from 48 to 440 ms over the
+    // presets), then a short stream: the pattern generators branch on the previous pattern, the hit sound and the span length
+    {
+        use vh::gen::{DiffPreset, MapSpec, Obj};
+        let sliders = [Kind::Slider2, Kind::Buzz, Kind::Slider5, Kind::Slider1];
+        let sounds = [4u8, 8, 2, 0];
+        let gaps = [110u32, 150, 300];
+        let presets = [DiffPreset::D0, DiffPreset::D2, DiffPreset::D7, DiffPreset::D5, DiffPreset::D1, DiffPreset::D8];
+        let total = (sliders.len() * sounds.len() * gaps.len() * presets.len() * 2) as u64;
+        let all_keys: Vec<ModSpec> = key_mods(true);
+        ctx.universe_isolated(&format!("dense/osu/sound-circle+repeat-slider+stream/{total}cases"), total, 5.0, 1024, |idx, l| {
+            let mut r = idx as usize;
+            let sl = sliders[r % sliders.len()];
+            r /= sliders.len();
+            let sound = sounds[r % sounds.len()];
+            r /= sounds.len();
+            let gap = gaps[r % gaps.len()];
+            r /= gaps.len();
+            let diff = presets[r % presets.len()];
+            let lead = r / presets.len() == 1;
+            let o = |kind, gap, pos, sound| Obj { kind, gap, pos, sound, col: 0 };
+            let mut objs = Vec::new();
+            if lead {
+                objs.push(o(Kind::Circle, 0, PosK::Far, 0));
+            }
+            objs.push(o(Kind::Circle, if lead { 200 } else { 0 }, PosK::Far, sound));
+            objs.push(o(sl, gap, PosK::Far, 0));
+            let spec = MapSpec { diff, stream: (16, 125), ..MapSpec::new(0, objs) };
+            if l.want_sample() {
+                let mut o = J::obj();
+                o.set("universe", J::s(l.universe));
+                o.set("index", J::i(idx));
+                o.set("map_spec", J::s(spec.describe()));
+                l.sample(o);
+            }
+            let map = spec.decode();
+            if !battery::in_domain(&map) {
+                return;
+            }
+            l.nontrivial();
+            l.states(1);
+            let d = battery::run_conversions(&map, &all_keys, &|| l.heartbeat());
+            std::hint::black_box(d);
+            l.checked(1);
+        });
+    }
+
     // windows of 64 consecutive objects of the four fixtures (step 32) through the conversion battery, all key mods
     {
         let mut cases: Vec<(&'static str, usize)> = Vec::new();
